@@ -1440,7 +1440,7 @@ func sameValue(got interface{}, want *jnode) bool {
 func rowopsStream(seed uint64, tier string, outDir string, props map[string]bool, focus string) *streamReport {
 	rep := &streamReport{Stream: "rowops", Seed: seed, Distribution: map[string]int{}, Outcomes: map[string]int{}, OracleChecks: map[string]int{}}
 	c := &rowopsCtx{rep: rep, props: props, r: newRng(seed, "rowops")}
-	nh, perFile := 400, 50
+	nh, perFile := 800, 50
 	npaths := 150
 	if tier == "thorough" {
 		nh, npaths = 8000, 4000
